@@ -14,7 +14,9 @@ TRUSTED_BASE = [
     "(harness/cmd/c12 drives the Go types through resources.CRDTValue + encoding/gob; the same histories are evaluated by vm_compute)",
     "tla.Value identifiers are modelled by Z (their Equal/Hash coherence is C05's subject); immutable.Map is modelled by association lists, "
     "every theorem holds up to an order-insensitive state equivalence that every operation is proved to respect",
-    "time.Now() is an oracle argument of lww_write: the timestamp the Go code stored is observed through GobEncode and fed to the model",
+    "time.Now() is an oracle argument of lww_write: the driver reads its own clock just before each Write (strictly after the previous "
+    "Write returned) and that reading is the event's timestamp for the model and the oracle - NOT the timestamp found stored, so a "
+    "write that stores nothing is still an event",
     "encoding/gob's primitive codec (int, tla.Value, time.Time, struct/slice framing) is taken to round-trip; the model covers what "
     "GobEncode/GobDecode of the three types do around it (iteration, length prefixes, rebuilding the maps)",
 ]
@@ -279,7 +281,7 @@ def to_coq(case, res):
                 ops.append("OWrite %s (%s, %s)" % (vlib.coq_Z(op[1]), vlib.coq_Z(op[2]), vlib.coq_Z(op[3])))
                 obs.append("Some (Some %s)" % coq_zl(rd))
             else:
-                ops.append("OWrite %s (%s, %s, %s)" % (vlib.coq_Z(op[1]), vlib.coq_Z(op[2]), vlib.coq_Z(op[3]), vlib.coq_Z(res["ts"][i])))
+                ops.append("OWrite %s (%s, %s, %s)" % (vlib.coq_Z(op[1]), vlib.coq_Z(op[2]), vlib.coq_Z(op[3]), vlib.coq_Z(res["t0"][i])))
                 obs.append("Some (Some %s)" % coq_zl(rd))
         elif k == "S":
             ops.append("OSnap %s %s" % (vlib.coq_Z(op[1]), vlib.coq_bool(op[2] == 1)))
@@ -350,8 +352,8 @@ def run(ctx):
         c["_res"] = r
         key = "%s/%s" % (c["type"], c.get("kind", "history"))
         dist[key] = dist.get(key, 0) + 1
-        ctx.add_case(json.dumps([c["type"], c["ops"]]), not r.get("err") and nontrivial(c, r.get("ts")))
-        for sig, what in oracle(c, r, r.get("ts") or []):
+        ctx.add_case(json.dumps([c["type"], c["ops"]]), not r.get("err") and nontrivial(c, r.get("t0")))
+        for sig, what in oracle(c, r, r.get("t0") or []):
             ctx.failures.append({"signature": sig, "what": what, "case": strip(c),
                                  "obs": {"reads": r.get("reads"), "final": r.get("final"), "states": r.get("states"), "laws": r.get("laws")}})
     ctx.extra["input_distribution"] = dist
@@ -377,12 +379,12 @@ def run(ctx):
             for k in mm:
                 c = part[k]
                 ctx.breaks.append({"what": "correspondence C12/Model.v vs distsys/resources %s differs on a history" % c["type"],
-                                   "case": strip(c), "impl": {"reads": c["_res"]["reads"], "final": c["_res"]["final"], "ts": c["_res"]["ts"]},
+                                   "case": strip(c), "impl": {"reads": c["_res"]["reads"], "final": c["_res"]["final"], "t0": c["_res"]["t0"], "stored_ts": c["_res"]["ts"]},
                                    "model": "gc_check/aw_check/lww_check = false (reads after each op or final reads differ)"})
     if ctx.replay:
         r = cases[0]["_res"]
         print("replay: go reads", r.get("reads"), "final", r.get("final"), "err", r.get("err"))
-        print("replay: oracle", oracle(cases[0], r, r.get("ts") or []), "correspondence breaks", len(ctx.breaks))
+        print("replay: oracle", oracle(cases[0], r, r.get("t0") or []), "correspondence breaks", len(ctx.breaks))
 
 
 MANIFEST = {
